@@ -20,6 +20,14 @@ CHECKS = {
    "Runtime monitor: seeded operation sequences on the real clusterState checked after every operation against a last-write-wins reference model, plus lagging/fresh observer synchronisation in the simulator.",
    "Reserved _internal: keys are not written by callers; single goroutine.",
    "runtime monitoring: reference-model oracle after every operation", "4/C17"),
+ "C03": (E1, "exploration",
+   "Runtime monitor: from divergent start states produced by lossy/expiry histories and hand-shaped states, a fair loss-free closure is run on the real gossip code at packet sizes from the feasibility edge upwards; the oracle demands a non-increasing potential that reaches 0 within a sweep bound with exact equality of every view and the owner's state. 'Eventually' is decided only in this bounded form.",
+   "Fairness = every known live pair exchanges once per sweep; F1 (oversize entry) and F3 (delta delayed across expiry) are listed known findings with machine-evaluated signatures; knowledge graph made connected before the closure.",
+   "runtime monitoring: bounded-progress (potential function) oracle + exact-equality check over simulated closures", "4/C03"),
+ "C04": (E1, "exploration",
+   "Runtime monitor over simulator executions with the real cluster.State and syncer attached to every node: after every step table==f(gossip view), caught-up => table==owner's endpoints/addresses, and LookupEndpoint validity/completeness for every endpoint id.",
+   "Sequential scheduler; F3-tainted pairs are classified from datagram provenance and reported as KNOWN-FINDING; half the runs have no expiry so no taint is possible there.",
+   "runtime monitoring: per-step mirror oracle (routing table vs gossip view vs owner truth) over simulated histories", "4/C04"),
  "C11": (E1, "exploration",
    "Runtime monitor over seeded simulator executions of the real membership code with a logical clock: per-step flag rules on every survivor (local node never flagged/removed, left only if the owner left, left never revived, flagged nodes scheduled for removal and outside the live set, routing status follows flags, no discovery from a digest marking the node left, sweeps remove exactly what is due) plus bounded crash/leave closures (forgotten by all within expiry + (N+3) detection periods, stays forgotten for two more expiry periods).",
    "Failure detector replaced by a logical-clock implementation of the same interface (the real one is C12's subject); sequential scheduler; liveness restated as a bound.",
